@@ -9,6 +9,17 @@ NOTES = ("Every check is decided by TLA+ specifications under spec/ checked with
 NOT_APPLICABLE = {}
 
 CHECKS = {
+    "C09": {
+        "text": "TLC explores the five selection loops of take()/take_all() (every random pick nondeterministic) over every candidate "
+                "map of 3 regions x 0..2 (thorough 0..3) candidates, every policy, n and quota, and checks each terminal state against "
+                "the declarative judge ProcSelectAbs (whose closed forms TLC proves equal to brute-force subset enumeration); every "
+                "enumerated stimulus is replayed several times on the real ProcessorSetBuilder over fake hardware with decoy "
+                "processors that filters must exclude, plus seeded random topologies up to 64 processors / 8 regions; every recorded "
+                "(topology, query, result) is judged by the same TLA+ judge in TLC.",
+        "note": "Bounded exhaustive universe (3 regions, <=3 per region, n<=6); larger topologies sampled. Trusted: TLC, fake hardware "
+                "of the crate (test-util), harness recording of ids.",
+        "technique": "TLA+ explorer + declarative judge checked by TLC; TLC-enumerated stimuli replayed on the real builder; trace validation by TLC",
+    },
     "C11": {
         "text": "TLC explores emit.rs step by step with checked W-bit arithmetic for every id set (W=3 quick, 4 thorough) and proves "
                 "no-panic, round trip and canonical form; TLC enumerates every cpulist text of <=2 parts as parser stimuli; all "
